@@ -21,7 +21,7 @@ func runInterleave(r *run) error {
 	defer pool.close()
 	bigSize := 1 << 20
 	if r.tier == "thorough" {
-		bigSize = 6 << 20
+		bigSize = 2 << 20
 	}
 	type tree struct {
 		name       string
@@ -113,8 +113,12 @@ func runInterleave(r *run) error {
 						return err
 					}
 					os.MkdirAll(dest, 0o755)
+					to := 120000
+					if c1 == 1 || c2 == 1 || c1 == 19 || c2 == 19 || ch == 1 || ch == 7 {
+						to = 900000 // megabytes through byte-sized buffers in byte-sized chunks are slow, not stuck
+					}
 					sp := sessionSpec{ID: id, Arr: arr, Args: []string{"-rt"}, SrcRoot: filepath.Join(base, "src-"+t.name), Srcs: []string{""}, Dest: dest,
-						CapC2S: c1, CapS2C: c2, Chunk: ch, DelayUs: 30 * g.intn(2), TimeoutMs: 120000}
+						CapC2S: c1, CapS2C: c2, Chunk: ch, DelayUs: 30 * g.intn(2), TimeoutMs: to}
 					jobs = append(jobs, job{sp, t, false, fmt.Sprintf("%s tree, %s, capacity client->server %d / server->client %d, chunks <= %d", t.name, arr, c1, c2, ch)})
 				}
 			}
